@@ -20,7 +20,7 @@ SPEC = {
     "gens": ["SlotTables"],
     "lean_modules": ["RsslVerif.Thm.C06"],
     "theorems": [T + n for n in [
-        "slice_cost_table", "params_of_targets_ok", "params_of_targets", "index_ranges_tile",
+        "slice_cost_table", "alloc_shape_as_modelled", "params_of_targets_ok", "params_of_targets", "index_ranges_tile",
         "inline_offsets_tile", "binding_complete", "inline_buffers_correct", "assign_ok_of_root_kinds"]],
     "harness": "c06",
     "level_text": "Proof: the allocator model (a fold with two counters) is proved, for every declaration sequence, default group "
